@@ -417,6 +417,13 @@ def _kinds(s, t):
     return "+".join(sorted(out)) or "none"
 
 
+def _dir_path_became_file(s, t):
+    """Input class: the path of a non-empty source directory holds a file in the target."""
+    files_t = {tuple(path(t, i)) for i in IDS if t[i]["v"] and t[i]["kind"] == "file"}
+    return any(s[i]["v"] and s[i]["kind"] == "directory" and tuple(path(s, i)) in files_t
+               and any(s[j]["v"] and s[j]["parent"] == i for j in IDS) for i in IDS)
+
+
 def _is_unchanged(r):
     return (r["ov"] and r["nv"] and not r["cc"] and r["opar"] == r["npar"] and r["on"] == r["nn"]
             and r["ok"] == r["nk"] and r["ox"] == r["nx"])
@@ -431,13 +438,17 @@ def _diff_classes(recs, opt, gen, q):
     flt = None if q["f"] == ["all"] else q["f"][1]
 
     def sort_of(r):
-        return ("error" if r["id"] == "error" else "unversioned" if r["id"] == "-" else
-                ("unchanged-" if _is_unchanged(r) else "changed-") + ("root" if r["id"] == "root" else "entry"))
+        return ("error-%s" % r["nn"] if r["id"] == "error" else "unversioned" if r["id"] == "-" else
+                ("unchanged-" if _is_unchanged(r) else "changed-") + "entry")
 
     def where(r):
         if flt is None:
             return "whole-tree"
-        return "inside-filter" if _inside(r["op"], flt) or _inside(r["np"], flt) else "outside-filter"
+        if _inside(r["op"], flt) or _inside(r["np"], flt):
+            return "inside-filter"
+        if any(r["np"] == list(f[:len(r["np"])]) for f in flt):
+            return "ancestor-of-filter-path"
+        return "outside-filter"
     a = {(recs[k - 1]["id"], json.dumps(recs[k - 1]["np"])): recs[k - 1] for k in opt}
     b = {(recs[k - 1]["id"], json.dumps(recs[k - 1]["np"])): recs[k - 1] for k in gen}
     cls = set()
@@ -477,7 +488,15 @@ def judge(ctx, rows, chunk=400):
             replay = dict(s=s, t=t, tx=row["tx"], query={k: q[k] for k in ("f", "iu", "wu")},
                           observed={k: [row["recs"][n - 1] for n in v] for k, v in q["o"].items()},
                           observed_git={k: [row["grecs"][n - 1] for n in v] for k, v in q["g"].items()}, verdict=b)
+            swapped = q["f"] != ["all"] and _dir_path_became_file(s, t)
             for law in b.get("failed", []):
+                if swapped and (law == "dirstate=generic" or "ds" in b.get("culprits", [])):
+                    # one input class, several symptoms (lstat error, missing records): see the known finding
+                    ctx.violation("%s:InterDirStateTree.iter_changes:filtered,non-empty-directory-path-now-a-file" % law,
+                                  "law %s fails for InterDirStateTree (%s)" % (law, where), replay)
+                    if law == "dirstate=generic":
+                        continue
+                    b = dict(b, culprits=[k for k in b["culprits"] if k != "ds"])
                 if law in ("chk=generic", "dirstate=generic"):
                     name, a, g = (("InterCHKRevisionTree", "chk", "inv") if law == "chk=generic" else
                                   ("InterDirStateTree", "ds", "wt"))
@@ -502,6 +521,30 @@ def _short(t):
                            for i in IDS if t[i]["v"]) + "}"
 
 
+def _generate(ctx, consts, witnesses, label):
+    """One TLC run: enumerate the pairs, check LawsHoldOnSpec on every one, reach every witness (-continue), export.
+    (Like table_common.generate, but the laws and witnesses are evaluated on non-initial states here.)"""
+    import re
+    out = os.path.join(ctx.workdir, "pairs_%d.json" % len(os.listdir(ctx.workdir)))
+    res = tlc.run(ctx, "TreeDiffGen", cfg_text=table.cfg(consts, ("LawsHoldOnSpec",) + tuple(witnesses)), allow_violation=True,
+                  workers=16, extra=("-continue",) if witnesses else (), env={"VF_OUT": out}, timeout=3000)
+    ctx.add_tlc(res, label)
+    found = set(re.findall(r"Error: Invariant (\w+) is violated", res["output"]))
+    if "LawsHoldOnSpec" in found:
+        ctx.machinery("TreeDiffGen violates LawsHoldOnSpec with %s -- the model itself is wrong:\n%s" % (consts, res["output"][-3000:]))
+    missing = [w for w in witnesses if w not in found]
+    if missing:
+        ctx.machinery("vacuity guard: TreeDiffGen did not reach witness(es) %s with %s" % (missing, consts))
+    if "states generated" not in res["output"] or not os.path.exists(out):
+        ctx.machinery("TreeDiffGen did not complete / wrote no pair file:\n%s" % res["output"][-2000:])
+    with open(out) as f:
+        pairs = json.load(f)
+    os.unlink(out)
+    if not pairs or res["distinct"] != 2 * len(pairs):
+        ctx.machinery("TreeDiffGen exported %d pairs but checked %s states" % (len(pairs), res["distinct"]))
+    return pairs
+
+
 def run(ctx):
     env.init()
     table_common.narrow_jvm()
@@ -511,8 +554,7 @@ def run(ctx):
         runs = [dict(MaxEdits=2, Starts='"all"', MaxFilter=2), dict(MaxEdits=3, Starts='"few"', MaxFilter=1)]
     pairs, seen = [], set()
     for n, consts in enumerate(runs):
-        part, _ = table_common.generate(ctx, "TreeDiffGen", consts, witnesses=WITNESSES if n == 0 else (), workers=16,
-                                        timeout=3000, label="TreeDiffGen %s" % consts)
+        part = _generate(ctx, consts, WITNESSES if n == 0 else (), "TreeDiffGen %s" % consts)
         part.sort(key=lambda p: (tree_key(p["s"]), tree_key(p["t"]), p["tx"]))
         fresh = []
         for p in part:
